@@ -97,6 +97,12 @@ def cases(tier, variants):
                 for nn in (2, 5):
                     yield dict(part="icp", kind="nonconvex", fam=fam, n=nn, box="box",
                                start="face", var=v, maxcor=m)
+        for fam in ("rosenbrock", "styblinski_tang", "oscil"):
+            for m in (3, 10):
+                yield dict(part="icp", kind="nonconvex", fam=fam, n=3, box="box", start="in",
+                           var=v, maxcor=m, ck_nit0=1)
+                yield dict(part="icp", kind="nonconvex", fam=fam, n=3, box="box", start="in",
+                           var=v, maxcor=m, updanti=1)
         # runs with failed line searches (memory resets) followed by further iterations
         for fam in ("expsum", "oscil", "coswell", "rastrigin"):
             for mls in (1, 2, 3):
@@ -360,6 +366,8 @@ def run(case):
     orig = M.update_lbfgs_matrices
 
     after = [None]
+    last_ret = [None]
+    x_start = np.clip(p.x0, p.lb, p.ub)      # (replaced by the checkpoint's point on a restart)
 
     def wrapped(xk, gk, X, G, maxcor, mats, is_force_update, eps=EPS, **kw):
         # between two updates nothing but the update routine may touch the memory (a
@@ -374,9 +382,22 @@ def run(case):
         # what the solver has been using during this iteration: the matrices it hands
         # over must be the BFGS matrix of the pairs it hands over (also right after a
         # memory reset)
-        if not is_force_update:
+        # (not at the first call of a run: a restart hands over the restored memory with
+        # the initial matrices, which this very call builds; not under a forced rebuild:
+        # the gradients may just have been rewritten by the update function)
+        rebuild_call = cnt[0] == 0 and np.array_equal(xk, x_start)
+        if not is_force_update and not rebuild_call:
             for s_, d_ in check_state(X, G, mats, maxcor, [a.copy() for a in X], eps):
                 found.append(V("before_update_" + s_, call=cnt[0] + 1, **d_))
+        # ... and the matrices object handed over is the one the previous update returned,
+        # unless the memory was emptied meanwhile (then: the initial matrices)
+        if last_ret[0] is not None and mats is not last_ret[0] and \
+                (len(X) != 1 or mats.use_factor):
+            found.append(V("matrices_handed_over_are_not_those_the_previous_update_returned",
+                           call=cnt[0] + 1, points_in_memory=len(X)))
+        if len(X) == 1 and mats.use_factor and not is_force_update and not rebuild_call:
+            found.append(V("before_update_matrices_not_initial_with_an_empty_memory",
+                           call=cnt[0] + 1))
         ss, yy = xk - X[-1], gk - G[-1]
         acc = float(ss @ yy) > eps * float(yy @ yy)
         before = snapshot(X, G, mats)
@@ -390,11 +411,36 @@ def run(case):
         for s, d in check_state(X, G, ret, maxcor, expect, eps):
             found.append(V(s, call=cnt[0], **d))
         after[0] = ([a.copy() for a in X], [a.copy() for a in G], bool(acc))
+        last_ret[0] = ret
         return ret
+    extra = {}
+    if case.get("ck_nit0"):
+        # restart from a checkpoint whose iteration counter the user has reset to 0 (new
+        # maxiter budget) while it still carries its pairs
+        ck = minimize_lbfgsb(x0=p.x0.copy(), fun=p.f, jac=p.g, bounds=p.bounds,
+                             maxcor=case["maxcor"], ftol=0.0, gtol=1e-7, maxiter=4)
+        ck.nit = 0
+        extra["checkpoint"] = ck
+        x_start = np.array(ck.x, copy=True)
+    if case.get("updanti"):
+        # update function that, at its call number 3, replaces every stored gradient so
+        # that all stored pairs lose their curvature (and changes nothing else)
+        ncall = [0]
+
+        def upd(x, f0, f0_old, grad, X, G):
+            ncall[0] += 1
+            if ncall[0] - 1 != 3 or len(X) < 1:
+                return f0, f0_old, grad, G
+            Gn = [np.array(grad, copy=True) + 10.0 * (np.asarray(x) - np.asarray(xx)) * (1 + j)
+                  for j, xx in enumerate(X)]
+            return f0, f0_old, grad, type(G)(Gn)
+        extra["update_fun_def"] = upd
+        extra["ftol"] = -10.0
     M.update_lbfgs_matrices = wrapped
     try:
-        minimize_lbfgsb(x0=p.x0.copy(), fun=p.f, jac=p.g, bounds=p.bounds,
-                        maxcor=case["maxcor"], ftol=0.0, gtol=1e-7, maxiter=40,
+        minimize_lbfgsb(x0=x_start, fun=p.f, jac=p.g, bounds=p.bounds,
+                        maxcor=case["maxcor"], gtol=1e-7, maxiter=40,
+                        **dict(dict(ftol=0.0), **extra),
                         **({"maxls": case["maxls"]} if case.get("maxls") else {}))
     finally:
         M.update_lbfgs_matrices = orig
